@@ -11,11 +11,11 @@
 #ifndef NBROWS
 #define NBROWS 4
 #endif
-struct VerifHdr { long a, b, c, d; };
-struct VerifItem { unsigned char bytes[ITEMSIZE]; };
-using BCells = TbfMemoryBlock<TbfMemoryScalar<VerifHdr>, TbfMemoryVector<VerifItem>>;
-using BOne = TbfMemoryBlock<TbfMemoryVector<VerifItem>>;
-using BParts = TbfMemoryBlock<TbfMemoryScalar<VerifHdr>, TbfMemoryVector<VerifItem>, TbfMemoryVector<long>, TbfMemoryMultiRVector<double, NBROWS>>;
+struct TbfVerifHdr { long a, b, c, d; };
+struct TbfVerifItem { unsigned char bytes[ITEMSIZE]; };
+using BCells = TbfMemoryBlock<TbfMemoryScalar<TbfVerifHdr>, TbfMemoryVector<TbfVerifItem>>;
+using BOne = TbfMemoryBlock<TbfMemoryVector<TbfVerifItem>>;
+using BParts = TbfMemoryBlock<TbfMemoryScalar<TbfVerifHdr>, TbfMemoryVector<TbfVerifItem>, TbfMemoryVector<long>, TbfMemoryMultiRVector<double, NBROWS>>;
 using BRhs = TbfMemoryBlock<TbfMemoryMultiRVector<long, NBROWS>>;
 long verif_driver(long n, long i, long r){
     BCells b; b.resetBlocksFromSizes(std::array<long,2>{{1, n}});
@@ -34,6 +34,6 @@ long verif_driver(long n, long i, long r){
     s += q.getViewerForBlock<0>().getItem(i, r) + q.getViewerForBlockConst<0>().getItem(i, r);
     BRhs q2(q.getPtr(), q.getAllocatedMemorySizeInByte());
     s += b.isEmpty() + b.getAllocatedMemorySizeInByte();
-    s += TbfUtils::GetLeadingDim<VerifItem>(n, 64);
+    s += TbfUtils::GetLeadingDim<TbfVerifItem>(n, 64);
     return s;
 }
